@@ -620,6 +620,8 @@ def _silent_paths(ctx, e):
         else:
             out.append("no else for `if %s`" % expr_str(c)[:120])
         return out
+    if k == "Loop" or (k == "Match" and "ForLoop" in (e.get("src") or "")):
+        return []       # a loop whose body acts: an empty iteration has nothing to resolve
     if k == "Match":
         out = []
         for a in e["arms"]:
@@ -630,6 +632,8 @@ def _silent_paths(ctx, e):
         return out
     if k in ("Call", "MethodCall"):
         return []
+    if k == "Loop" or (k == "Match" and "ForLoop" in (e.get("src") or "")):
+        return []       # a loop whose body acts: an empty iteration has nothing to resolve
     ch = [v for v in e.values() if isinstance(v, dict)]
     out = []
     for c in ch:
